@@ -3,6 +3,7 @@ package drv
 import (
 	"bytes"
 	"encoding/json"
+	"fmt"
 	"os"
 	"runtime/debug"
 
@@ -61,7 +62,14 @@ func amfResult(val interface{}, used int, err error) M {
 	return M{"ok": true, "used": used, "val": val}
 }
 
-func amfDecode(kind string, b []byte) (M, M) {
+func amfDecode(kind string, b []byte) (r1 M, r2 M) {
+	// a panic inside lal is an observation (never allowed by the specification), not a driver failure
+	defer func() {
+		if e := recover(); e != nil {
+			r1 = M{"ok": false, "used": -1, "val": M{"k": "panic", "what": fmt.Sprint(e)}}
+			r2 = nil
+		}
+	}()
 	switch kind {
 	case "num":
 		v, l, err := rtmp.Amf0.ReadNumber(b)
@@ -69,7 +77,7 @@ func amfDecode(kind string, b []byte) (M, M) {
 	case "bool":
 		v, l, err := rtmp.Amf0.ReadBoolean(b)
 		return amfResult(lalView(v), l, err), nil
-	case "str":
+	case "str", "lstr":
 		v, l, err := rtmp.Amf0.ReadString(b)
 		return amfResult(lalView(v), l, err), nil
 	case "null":
